@@ -22,6 +22,9 @@ import (
 )
 
 type Case struct {
+	// Late: configuration calls made after a first Render of the same File; the File is then
+	// rendered again and must equal gofmt of an identically configured NoFormat File.
+	Late  []recipe.FileOp   `json:"late,omitempty"`
 	File  *recipe.File      `json:"file"`
 	Forms *recipe.Decisions `json:"forms,omitempty"` // form policy decisions (so that ...Func groups exist to render)
 	Note  string            `json:"note,omitempty"`
@@ -90,6 +93,40 @@ func check(c Case) error {
 		}
 		if !bytes.Equal(want, outA) {
 			return fmt.Errorf("formatted output is not gofmt of the raw rendering\n--- formatted ---\n%s\n--- gofmt(raw) ---\n%s", outA, want)
+		}
+	}
+	if len(c.Late) > 0 && errA == nil {
+		// the same File object, configured further after it has been rendered once
+		var errA2 error
+		wa2 := &countingWriter{}
+		if err := hx.Safe(func() error {
+			for i := range c.Late {
+				recipe.ApplyFileOp(fa, &c.Late[i])
+			}
+			errA2 = fa.Render(wa2)
+			return nil
+		}); err != nil {
+			return fmt.Errorf("second Render after further configuration panicked: %v", err)
+		}
+		all := c.File.Clone()
+		all.Ops = append(all.Ops, c.Late...)
+		c.Forms.Rewind()
+		fb2 := (&recipe.Builder{Forms: c.Forms}).File(noFormat(all))
+		wb2 := &countingWriter{}
+		errB2 := fb2.Render(wb2)
+		if errA2 == nil {
+			if errB2 != nil {
+				return fmt.Errorf("after further configuration the formatted render succeeds but the identically configured NoFormat File fails: %v", errB2)
+			}
+			want, err := format.Source(wb2.buf.Bytes())
+			if err != nil {
+				return fmt.Errorf("after further configuration Render returned nil but the raw rendering is not valid Go: %v", err)
+			}
+			if !bytes.Equal(want, wa2.buf.Bytes()) {
+				return fmt.Errorf("a File configured further after its first Render (%s) does not render gofmt of the raw rendering of an identically configured File\n--- second render ---\n%s\n--- gofmt(raw) ---\n%s", recipe.JSON(c.Late), wa2.buf.Bytes(), want)
+			}
+		} else if wa2.calls != 0 {
+			return fmt.Errorf("second Render returned an error but wrote %d bytes", wa2.buf.Len())
 		}
 	}
 	// fragment renders: every body statement and every group obtained through a ...Func callback
@@ -180,7 +217,7 @@ var root = corpus.Default()
 func TestC02(t *testing.T) {
 	r := hx.Start(t, "C02")
 	defer r.Finish(t)
-	r.Rule("rapid-generated Files: (a) random DSL trees over every exported construct with plausible and arbitrary string arguments (depth <= 4, width <= 5), (b) plausible small programs (mostly valid), (c) real programs with one structured damage (delete/duplicate/swap/rename a call or item); all under random File settings (constructor, prefix, hints, header/package comments, canonical path, cgo preamble, anon imports) and random form policy; every case is built formatted and NoFormat, and every body statement and every ...Func group is rendered as a fragment; non-trivial = tree with >= 3 calls; distinct by recipe; both outcome classes are reported")
+	r.Rule("rapid-generated Files: (a) random DSL trees over every exported construct with plausible and arbitrary string arguments (depth <= 4, width <= 5), (b) plausible small programs (mostly valid), (c) real programs with one structured damage (delete/duplicate/swap/rename a call or item); all under random File settings (constructor, prefix, hints, header/package comments, canonical path, cgo preamble, anon imports) and random form policy; every case is built formatted and NoFormat (half of the plausible programs are configured further — header / package comments, canonical path, cgo preamble, anon imports — after a first Render and rendered again), and every body statement and every ...Func group is rendered as a fragment; non-trivial = tree with >= 3 calls; distinct by recipe; both outcome classes are reported")
 	r.Assume("documented preconditions only: Lit gets a supported type, a Dict is the only item of its Values, callbacks and *File are non-nil, Code graphs are acyclic")
 	count := func(kind string, c Case) {
 		calls := 0
@@ -213,6 +250,24 @@ func TestC02(t *testing.T) {
 			f.Body = append(f.Body, gen.Decl(rt, 3))
 		}
 		c := Case{File: f, Forms: forms(rt)}
+		if rapid.Bool().Draw(rt, "late") {
+			// configuration that does not touch the body, applied after the first render
+			c.Late = gen.FileSettings(rt).Ops
+			var late []recipe.FileOp
+			for _, op := range c.Late {
+				switch op.Op {
+				case "HeaderComment", "PackageComment", "CanonicalPath", "CgoPreamble":
+					late = append(late, op)
+				case "Anon":
+					// Anon for paths the body never references (the property excludes Anon on a referenced path)
+					late = append(late, recipe.FileOp{Op: "Anon", Args: []recipe.Text{"late.example/anon"}})
+				}
+			}
+			c.Late = late
+			if len(late) > 0 {
+				r.Class("settings_after_render")
+			}
+		}
 		_ = hx.Safe(func() error { (&recipe.Builder{Forms: c.Forms}).File(c.File); return nil })
 		c.Forms = freeze(c.Forms)
 		count("plausible", c)
